@@ -287,9 +287,8 @@ def git_env(extra=None):
 
 
 def git(args, cwd=None, input=None, check=True, env=None, timeout=120):
-    p = subprocess.run(
-        ["git"] + list(args), cwd=cwd, input=input, capture_output=True, env=git_env(env), timeout=timeout
-    )
+    kw = {"input": input} if input is not None else {"stdin": subprocess.DEVNULL}  # never inherit the runner's stdin
+    p = subprocess.run(["git"] + list(args), cwd=cwd, capture_output=True, env=git_env(env), timeout=timeout, **kw)
     if check and p.returncode != 0:
         raise HarnessError("git %s failed (%d): %s" % (" ".join(map(str, args)), p.returncode, p.stderr[-2000:]))
     return p
